@@ -168,7 +168,7 @@ theorem tri_double (n : Nat) : 2 * tri n = n * (n + 1) := by
   | zero => rfl
   | succ n ih =>
       simp only [tri, Nat.mul_add, ih]
-      simp only [Nat.mul_add, Nat.add_mul, Nat.mul_one, Nat.one_mul]
+      simp only [Nat.add_mul, Nat.mul_one, Nat.one_mul]
       omega
 
 end C17
